@@ -12,6 +12,8 @@
 (*    lam    E15(lambda_combined_func, documented sum FlowPropsMP!LambdaTerms), scale the sum                *)
 (*    alpha  E15(alpha_multiphase, lambda_combined_func / compressibility_combined_func), scale the ratio    *)
 (*    tab    E15(from_table(...).pvt_props["alpha"], the same ratio)   at table nodes                        *)
+(*    intso  E15(c with the oil saturation given as an INTEGER 0 / 1 (Python int or integer array), c with the *)
+(*           same saturation as a float), same scale: the value of a saturation does not depend on its dtype   *)
 EXTENDS TraceLib, Quant
 VARIABLES l, h
 Tol == 1000
@@ -20,7 +22,7 @@ NoMono == [x \in {} |-> 0]
 C16Rules ==
   [storage |-> [mono |-> NoMono,
                 agreeMax |-> [cdiff |-> A("all"), zero |-> A("all"), slope |-> A("all"), phi |-> A("all"),
-                              lam |-> A("all"), alpha |-> A("all"), tab |-> A("all")],
+                              lam |-> A("all"), alpha |-> A("all"), tab |-> A("all"), intso |-> A("all")],
                 mustTrue |-> {},
                 need |-> {"none"}, minPoints |-> 3]]
 INSTANCE SweepCore WITH Rules <- C16Rules
